@@ -1271,22 +1271,15 @@ impl Value {
                                 field.default.as_ref(),
                             )?,
                             Schema::Union(ref union_schema) => {
-                                let first = &union_schema.variants()[0];
-                                // NOTE: this match exists only to optimize null defaults for large
+                                // NOTE: this shortcut exists only to optimize null defaults for large
                                 // backward-compatible schemas with many nullable fields
-                                match first {
-                                    Schema::Null => Value::Union(0, Box::new(Value::Null)),
-                                    _ => Value::Union(
-                                        0,
-                                        Box::new(
-                                            Value::try_from(value.clone())?.resolve_internal(
-                                                first,
-                                                names,
-                                                enclosing_namespace,
-                                                field.default.as_ref(),
-                                            )?,
-                                        ),
-                                    ),
+                                if value.is_null()
+                                    && matches!(union_schema.variants().first(), Some(Schema::Null))
+                                {
+                                    Value::Union(0, Box::new(Value::Null))
+                                } else {
+                                    // Resolving against the union below finds the matching variant
+                                    Value::try_from(value.clone())?
                                 }
                             }
                             _ => Value::try_from(value.clone())?,
